@@ -9,7 +9,7 @@ use fidget_core::eval::Function;
 use fidget_core::shape::{EzShape, Shape};
 use fidget_core::types::Grad;
 use fidget_core::var::Var;
-use fidget_core::vm::VmFunction;
+use fidget_core::vm::{GenericVmFunction, VmFunction};
 use fidget_jit::JitFunction;
 use serde_json::json;
 
@@ -584,17 +584,42 @@ fn dag_prog<F: Backend>(cx: &mut Cx, p: &Prog, pts: &[Vec<f32>]) {
                     _ => D64::from_grad(&out[out_of[n]][l]),
                 }
             };
-            let (r, name, anc_ok) = match *op {
-                FOp::Un(u, a) => (dual_un(u, get(a)), format!("{u:?}"), ok[a]),
-                FOp::Bin(b, a, c) => (dual_bin(b, get(a), get(c)), format!("{b:?}"), ok[a] && ok[c]),
+            // whether the point is on the op's non-differentiable locus is judged on
+            // the operand values of the FLOAT-SLICE evaluator, not on the gradient
+            // evaluator's own operand values: a gradient evaluator that corrupts an
+            // operand (NaN from a lost spill) must not thereby excuse itself
+            let getp = |n: usize| -> D64 {
+                match flat.ops[n] {
+                    FOp::Const(c) => D64::constant(c as f64),
+                    _ => D64::constant(pout[out_of[n]][l] as f64),
+                }
+            };
+            let (r, on_locus, name, anc_ok) = match *op {
+                FOp::Un(u, a) => (dual_un(u, get(a)), dual_un(u, getp(a)).is_none(), format!("{u:?}"), ok[a]),
+                FOp::Bin(b, a, c) => (dual_bin(b, get(a), get(c)), dual_bin(b, getp(a), getp(c)).is_none(), format!("{b:?}"), ok[a] && ok[c]),
                 _ => continue,
             };
             if out_of[j] == usize::MAX {
                 continue;
             }
             let g = out[out_of[j]][l];
-            let Some(r) = r else {
+            if on_locus {
                 cx.add("skipped_near_nondifferentiable_locus", 1);
+                node_ok_so_far = false;
+                ok[j] = false;
+                continue;
+            }
+            let Some(r) = r else {
+                // differentiable by the float-slice evaluator's operand values, yet the
+                // gradient evaluator's own operand values put it on the locus: they differ
+                if anc_ok {
+                    cx.violation(
+                        format!("{}-grad-slice operand values differ from the float-slice evaluator's (composition)", F::NAME),
+                        desc(),
+                        format!("point {pt:?}: node n{j} ({name}): the gradient evaluator computed {g:?} from operands that are not the values the float-slice evaluator has"),
+                    );
+                    break 'pts;
+                }
                 node_ok_so_far = false;
                 ok[j] = false;
                 continue;
@@ -695,6 +720,7 @@ fn transform_unit<F: Backend>(cx: &mut Cx, sub: &mut u64) {
             m
         }),
         ("rot30+translate", Matrix4::new_rotation(Vector3::new(0.3, -0.2, 0.5)) * Matrix4::new_translation(&Vector3::new(0.3, 0.1, -0.7))),
+        ("homogeneous scale (shear + translate, times 4)", Matrix4::new(1.0, 0.5, 0.0, 0.25, 0.0, 1.0, 0.25, -1.0, 0.0, 0.0, 1.0, 0.5, 0.0, 0.0, 0.0, 1.0) * 4.0),
     ];
     let progs: Vec<Prog> = {
         let mk = |f: &dyn Fn(&mut Prog, usize, usize, usize) -> usize| {
@@ -832,7 +858,7 @@ impl Check for C05 {
     }
     fn meta(&self, tier: Tier) -> Meta {
         Meta {
-            rule: "case = one grad-slice call; (a) every opcode x operand form {reg, reg/reg, same-reg, reg/imm, imm/reg} x operand values from a 20-value finite alphabet (squared for binary ops) x seed gradients {e_x,e_y,e_z,(2,-3,0.5),0,(1,1,1)} per operand, cut into slices of lengths 1..=9, VM and JIT; (b) fan families of width 1..16 (thorough 24) keeping w gradients live across atan2 / mod / sin / exp call-outs, and one huge program with 300 simultaneously live gradients; for 11 binary opcodes 11 ROOT-ONLY programs each in which the op's operands are used again afterwards (register-sharing patterns), gradient of the root vs the f64 dual-number derivative of the whole program on a 36-point grid; every DAG up to the node bound over 20 differentiable ops with all nodes exported: local chain-rule obligation at every node (reference dual applied to the evaluator's own operand gradients) on a 36-point grid; (b') outer(inner(x, y|const|x), y|const|same) for EVERY ordered pair of the 30 opcodes, same obligations; (c) Context::deriv of the last node w.r.t. X and Y evaluated with ref32 vs the f64 dual-number derivative of the graph; (d) Shape grad evaluation with 7 matrices incl. projective; oracle: f64 forward-mode duals with a cancellation-aware tolerance 1e-4*max(1,|ref|,sum|terms|); value must equal the float-slice evaluator's; points within 1e-3 of an op's non-differentiable locus are skipped (counted); non-trivial = a derivative was actually compared".into(),
+            rule: "case = one grad-slice call; (a) every opcode x operand form {reg, reg/reg, same-reg, reg/imm, imm/reg} x operand values from a 20-value finite alphabet (squared for binary ops) x seed gradients {e_x,e_y,e_z,(2,-3,0.5),0,(1,1,1)} per operand, cut into slices of lengths 1..=9, VM and JIT; (b) fan families (also at VM register budgets 3 and 8, so that the gradient evaluator's Load / Store run) of width 1..16 (thorough 24) keeping w gradients live across atan2 / mod / sin / exp call-outs, and one huge program with 300 simultaneously live gradients; for 11 binary opcodes 11 ROOT-ONLY programs each in which the op's operands are used again afterwards (register-sharing patterns), gradient of the root vs the f64 dual-number derivative of the whole program on a 36-point grid; every DAG up to the node bound over 20 differentiable ops with all nodes exported: local chain-rule obligation at every node (reference dual applied to the evaluator's own operand gradients) on a 36-point grid; (b') outer(inner(x, y|const|x), y|const|same) for EVERY ordered pair of the 30 opcodes, same obligations; (c) Context::deriv of the last node w.r.t. X and Y evaluated with ref32 vs the f64 dual-number derivative of the graph; (d) Shape grad evaluation with 7 matrices incl. projective; oracle: f64 forward-mode duals with a cancellation-aware tolerance 1e-4*max(1,|ref|,sum|terms|); value must equal the float-slice evaluator's; points within 1e-3 of an op's non-differentiable locus are skipped (counted); non-trivial = a derivative was actually compared".into(),
             bounds: match tier {
                 Tier::Quick => "DAG nodes <= 2".into(),
                 Tier::Thorough => "DAG nodes <= 3".into(),
@@ -904,6 +930,8 @@ impl Check for C05 {
                     cx.add("cases", 1);
                     root_prog::<VmFunction>(cx, &p, &pts);
                     root_prog::<JitFunction>(cx, &p, &pts);
+                    // a register budget small enough to spill (Load / Store in the gradient evaluator)
+                    root_prog::<GenericVmFunction<3>>(cx, &p, &pts);
                 }
             }
             Unit::Huge => {
@@ -913,6 +941,12 @@ impl Check for C05 {
                     let pts: Vec<Vec<f32>> = vec![vec![-2.25], vec![0.3], vec![1.6]];
                     dag_prog::<VmFunction>(cx, &p, &pts);
                     dag_prog::<JitFunction>(cx, &p, &pts);
+                    dag_prog::<GenericVmFunction<8>>(cx, &p, &pts);
+                    // root only: the spilled values are consumed, not exported
+                    let g = [-2.25f32, 0.3, 1.6];
+                    let pts1: Vec<Vec<f32>> = g.iter().map(|a| vec![*a]).collect();
+                    root_prog::<VmFunction>(cx, &p, &pts1);
+                    root_prog::<GenericVmFunction<8>>(cx, &p, &pts1);
                 }
             }
             Unit::Fan { w } => {
@@ -931,6 +965,9 @@ impl Check for C05 {
                             let p = family_fan(w, mid, order, comb);
                             dag_prog::<VmFunction>(cx, &p, &pts);
                             dag_prog::<JitFunction>(cx, &p, &pts);
+                            // small register budgets: the gradient evaluator's Load / Store
+                            dag_prog::<GenericVmFunction<3>>(cx, &p, &pts);
+                            dag_prog::<GenericVmFunction<8>>(cx, &p, &pts);
                         }
                     }
                 }
